@@ -326,7 +326,9 @@ class C11(Check):
             # word (no nested record / an undecoded one) after a fault that had one, on the same thread and parser
             for p1 in range(256):
                 for second in ((), ('RealFaultAddressPurgeable',)):
-                    evs = [E.ev('MACH_vmfault', 1, (1, 2, 0, 0)), E.ev('RealFaultAddressInternal', 0, (9, (7 << 16) | (p1 << 8) | 2, 5, 6)),
+                  # the nested record of the first fault is of each kind the tool decodes (every 8th value for the two rarer kinds)
+                  for first_kind in (('RealFaultAddressInternal', 'RealFaultAddressExternal', 'RealFaultAddressSharedCache') if p1 % 8 == 7 or p1 < 8 else ('RealFaultAddressInternal',)):
+                    evs = [E.ev('MACH_vmfault', 1, (1, 2, 0, 0)), E.ev(first_kind, 0, (9, (7 << 16) | (p1 << 8) | 2, 5, 6)),
                            E.ev('MACH_vmfault', 2, (0, 0, 0, 2)), E.ev('MACH_vmfault', 1, (1, 3, 0, 0))] + \
                           [E.ev(k, 0, (9, (7 << 16) | (0xff << 8) | 2, 5, 6)) for k in second] + [E.ev('MACH_vmfault', 2, (0, 0, 0, 2))]
                     try:
@@ -343,7 +345,7 @@ class C11(Check):
                         bad = ('raised:' + type(ex).__name__, {'error': repr(ex)[:200]})
                     acc.case(nontrivial=True, transitions=6)
                     if bad:
-                        acc.violation(f'{bad[0]}@VM_PROT@vmfault-pairs', {'kind': 'vmprot-pairs', 'prot': p1, 'second': list(second)}, bad[1])
+                        acc.violation(f'{bad[0]}@VM_PROT@vmfault-pairs', {'kind': 'vmprot-pairs', 'prot': p1, 'second': list(second), 'first_kind': first_kind}, bad[1])
         elif kind == 'open':
             _, site, mode = desc
             dec = declared('bsd.BscOpenFlags')
